@@ -33,11 +33,20 @@ Internal(T) ==
 
 ExecKind(T, e) == IF FirstBad(T, T.ex[e].frame.ids) = 0 THEN "rows" ELSE "unprepared"
 
+\* PrepLost: the PREPARE is not answered at all - the node kills the connection while it is outstanding.  For
+\* Prepare.tla that is the same step as an ERROR answer (NodePrepareFail: the flight has failed); the harness
+\* can only do it when nothing else is outstanding on that connection.
+ConnOfKey(k) == <<k[1], k[2]>>
+QuietConn(T, f) ==
+  /\ \A g \in Flights(T) \ {f} : T.fl[g].st = "sent" => ConnOfKey(T.fl[g].key) # ConnOfKey(T.fl[f].key)
+  /\ \A e \in EX(T) : T.ex[e].pc = "awaitexec" => T.plan[e].conn # ConnOfKey(T.fl[f].key)
+
 \* commands of the harness
 Commands(T) ==
   {Act("Start", e, 0, NoKey, "-") : e \in {e \in EX(T) : LookupEn(T, e) /\ ~T.ex[e].started}} \cup
   {Act("PrepOk", "-", f, NoKey, "-") : f \in {f \in Flights(T) : NodePrepareOkEn(T, f)}} \cup
   {Act("PrepFail", "-", f, NoKey, "-") : f \in {f \in Flights(T) : NodePrepareFailEn(T, f)}} \cup
+  {Act("PrepLost", "-", f, NoKey, "-") : f \in {f \in Flights(T) : NodePrepareFailEn(T, f) /\ QuietConn(T, f)}} \cup
   {Act("Done", "-", f, NoKey, "-") : f \in {f \in Flights(T) : FlightDoneEn(T, f)}} \cup
   {Act("ExecReply", e, 0, NoKey, ExecKind(T, e)) : e \in {e \in EX(T) : NodeExecuteEn(T, e)}} \cup
   {Act("Evict", e, 0, NoKey, "-") : e \in {e \in EX(T) : EvictEn(T, e)}} \cup
@@ -51,7 +60,7 @@ Apply(T, x) ==
     [] x.a = "CheckArity" -> CheckArity(T, x.e)
     [] x.a = "SendExecute" -> SendExecute(T, x.e)
     [] x.a = "PrepOk" -> NodePrepareOk(T, x.f)
-    [] x.a = "PrepFail" -> NodePrepareFail(T, x.f)
+    [] x.a \in {"PrepFail", "PrepLost"} -> NodePrepareFail(T, x.f)
     [] x.a = "Done" -> FlightDone(T, x.f)
     [] x.a = "ExecReply" -> NodeExecute(T, x.e)
     [] x.a = "Evict" -> Evict(T, x.e)
